@@ -181,7 +181,8 @@ pub fn run(ctx: &Ctx) -> CheckResult {
             let mut base = scen::binary_roundtrip_case(bins[i], &[], None, true);
             base.property = "C01".into();
             let seed = rng::mix(ctx.seed, &base.name, 104);
-            jobs.push(FaultJob { base: base.clone(), step: 0, space: FaultSpace { read_side: false, write_side: true, meta_side: false, budgets: if quick { Budgets::BoundariesPlus(12) } else { Budgets::Complete }, seed }, noise: true, max_variants: 0 });
+            // (read side too: a short or interrupted read of the binary must not change the text)
+            jobs.push(FaultJob { base: base.clone(), step: 0, space: FaultSpace { read_side: true, write_side: true, meta_side: false, budgets: if quick { Budgets::BoundariesPlus(12) } else { Budgets::Complete }, seed }, noise: true, max_variants: 0 });
             // the same with the text going to a redirected stdout
             let mut via_stdout = base.clone();
             scen::decompile_to_stdout(&mut via_stdout.steps[0]);
